@@ -117,6 +117,7 @@ func JudgeRuns(c *core.Ctx, runs [][]any, fn func(inv string, run int, text stri
 			live = append(live, i)
 		}
 	}
+	nbad := 0
 	for len(live) > 0 {
 		var recs []any
 		owner := []int{}
@@ -149,6 +150,9 @@ func JudgeRuns(c *core.Ctx, runs [][]any, fn func(inv string, run int, text stri
 		}
 		bad := owner[idx]
 		fn(inv, bad, tf.Text)
+		if nbad++; nbad >= 5 {
+			return // enough: every further rejected run costs one more TLC run
+		}
 		nl := live[:0]
 		for _, i := range live {
 			if i != bad {
